@@ -440,8 +440,38 @@ Definition best_internal (mn mx : Z) : outcome ity :=
       Z.max (next_power_of_two (Z.log2 (next_power_of_two m) + (if needs_signed then 1 else 0))) 8 in
     Ok {| signed := needs_signed; bits := needs_bits |}.
 
-Definition internal_type_at (fuel : nat) (d : device) : outcome ity :=
+(* find_best_internal_address as it was between the repair of the walk and the repair of D3b: sized for the walk with
+   `|_| true` only.  HISTORICAL (C13_historical_D3b_signed_product). *)
+Definition internal_type_walk_only_at (fuel : nat) (d : device) : outcome ity :=
   match find_min_max_addresses fuel filter_all (d_objects d) with
+  | Fail f => Fail f
+  | Ok (mn, mx) => best_internal mn mx
+  end.
+
+(* what is written out / calculated in the internal type for one object besides the addresses: its (effective) address
+   or offset, |stride|, the last index count-1 (saturating) and last index * |stride| (i128; the product of a u64 and
+   the magnitude of an i64 always fits).  A ref uses its own address()/repeat(), else its target's, like the walk. *)
+Definition object_it_values (dev : list object) (o : object) : list Z :=
+  let tgt := ref_target dev o in
+  (match eff_address o tgt with Some a => [a] | None => [] end ++
+   match eff_repeat o tgt with
+   | Some r => [Z.abs (r_stride r); Z.max (r_count r - 1) 0; Z.max (r_count r - 1) 0 * Z.abs (r_stride r)]
+   | None => []
+   end)%list.
+
+Definition widen_values (mm : Z * Z) (vs : list Z) : Z * Z :=
+  fold_left (fun acc v => (Z.min (fst acc) v, Z.max (snd acc) v)) vs mm.
+
+(* the (min, max) the bit formula is applied to: the walk's, widened by the values of EVERY object of the tree
+   (recurse_objects: pre-order) *)
+Definition internal_range_at (fuel : nat) (d : device) : outcome (Z * Z) :=
+  match find_min_max_addresses fuel filter_all (d_objects d) with
+  | Fail f => Fail f
+  | Ok mm => Ok (widen_values mm (flat_map (object_it_values (d_objects d)) (preorder_objects (d_objects d))))
+  end.
+
+Definition internal_type_at (fuel : nat) (d : device) : outcome ity :=
+  match internal_range_at fuel d with
   | Fail f => Fail f
   | Ok (mn, mx) => best_internal mn mx
   end.
@@ -452,6 +482,7 @@ Definition walk_fuel (objs : list object) : nat := S (S (objects_size objs)).
 
 (* the internal type of a device, for users that have no fuel of their own (Emit.v) *)
 Definition internal_type (d : device) : outcome ity := internal_type_at (walk_fuel (d_objects d)) d.
+Definition internal_type_walk_only (d : device) : outcome ity := internal_type_walk_only_at (walk_fuel (d_objects d)) d.
 
 (* ------------------------------------------------------------------------------------------------ *)
 (** * (d-pre) HISTORICAL: find_min_max_addresses and its users as they were BEFORE the repair of D3 / D3c / D4 / D4b /
@@ -602,7 +633,7 @@ Fixpoint checkpoints (base : Z) (path : list step) : list Z :=
   | s :: t => (base + s_addr s) :: (base + step_sem s) :: checkpoints (base + step_sem s) t
   end.
 
-(* the D3b side condition: for every repeated step (enclosing block or the object itself) the largest product
+(* the (former) D3b side condition: for every repeated step (enclosing block or the object itself) the largest product
    `index as IT * |STRIDE|` is representable in the internal type *)
 Definition step_product_ok (it : ity) (s : step) : Prop :=
   match s_rep s with
@@ -615,7 +646,7 @@ Definition step_product_okb (it : ity) (s : step) : bool :=
   | Some r => (r_count r - 1) * Z.abs (r_stride r) <=? ity_max it
   | None => true
   end.
-(* the class of D3b: signed internal type and a step whose largest product does not fit it *)
+(* the class of the repaired defect D3b: signed internal type and a step whose largest product does not fit it *)
 Definition d3b_class (it : ity) (path : list step) : bool := signed it && negb (forallb (step_product_okb it) path).
 
 (* why an instance is outside the class covered by C13_partial / C12_reject_iff_collision_partial *)
@@ -968,7 +999,8 @@ Definition c13_result (fx : bool) (fuel : nat) (dev_name : string) (d : device) 
 (* L2: for every instance of an accepted definition whose index tuple is extreme (every index 0 or count-1):
    "<kind>|<accessor path a.b(i).c(j)>|<addr_sem>|<debug outcome>|<release value>|<D3b or nothing>" — the check calls
    the compiled accessor path and compares the recorded bus address; the last field says whether the path is in the
-   class of D3b, the only class in which the emitted arithmetic of an accepted definition may overflow on the way *)
+   class of the repaired defect D3b (signed internal type, a step product beyond its maximum): never, since the internal
+   type covers every product (AddrProofs.steps_product_ok_holds); kept so that the check can say so *)
 Definition show_outcome_Z (o : outcome Z) : string :=
   match o with Ok z => show_Z z | Fail k => "panic:" ++ show_outcome_kind k end.
 
